@@ -164,6 +164,24 @@ func genC07(c *Ctx) {
 			emit(true, fmt.Sprintf("buf c=1 n=%d size=%d sync=1 cg=1 sg=1 %s script=%s", cc+6, cc+1, trig, concScript(zeros(cc+3))))
 		}
 	}
+	// (e'') concurrent consume over a concurrent map whose source has gone quiet (parked inside a context-honouring Emit):
+	//       a failing / panicking consumer callback must end the terminal (nobody cancels the caller's context)
+	for cc := 1; cc <= 3; cc++ {
+		for park := 1; park <= 3; park++ {
+			for _, trig := range []string{"mf=0", "mp=0", fmt.Sprintf("mf=%d", park-1)} {
+				emit(true, fmt.Sprintf("ccons c=%d n=%d sync=0 mg=0 park=%d %s over=cmap script=-", cc, park+4, park, trig))
+			}
+		}
+	}
+	// (e') JSON pipe: the source fails while the consumer, having read `reads` chunks, waits on its own context instead of
+	//      reading on (a stalled context-aware sink; reads=0: it has not started reading): the helper must end it
+	for n := 1; n <= 3; n++ {
+		for se := 0; se <= n; se++ {
+			// chunks before element se fails: "[" e0 "," e1 ... = 2*se of them; the writer blocks in its next Write unless
+			// they are read
+			emit(true, fmt.Sprintf("pipe c=1 n=%d sync=0 se=%d reads=%d cwait=1 script=-", n, se, 2*se))
+		}
+	}
 	// (f) a lifecycle element AFTER the asynchronous stage fails to open (error / panic), caller ctx never cancelled,
 	//     source longer than the buffers: the terminal returns the open error and every goroutine already started by
 	//     the stage must exit (doOpenStream cancels the materialisation ctx)
